@@ -12,13 +12,13 @@
    (C15_compartment_order_model) are proved on get_comp_rates itself.  Two stratifications applied in either order give
    the same compartments (C15_stratification_order_compartments); listing strata in another order permutes the
    compartments (C15_strata_order_compartments) and the copies of every flow (C15_strata_order_flow_copies); renaming compartments commutes with stratifying
-   (C15_renaming_compartments).  The rest of the strata- / stratification-order equivariance of the build (flows,
+   (C15_renaming_compartments, C15_renaming_flow_copies).  The rest of the strata- / stratification-order equivariance of the build (flows,
    populations, trajectories), renaming, "flow added before = after an unadjusted stratification", and the order statements for models
    with infection flows are established by the metamorphic oracle and the correspondence only (DESIGN.md 6.15). *)
 From Coq Require Import QArith Qcanon List String Bool Permutation.
 Import ListNotations.
 From S2 Require Import Base.Num Base.Arr Model.Expr Model.Struct Model.Solvers
-     Model.Rates Model.Run Model.Program Proofs.NumQc Proofs.NumLemmas Proofs.InvarianceProofs Proofs.TimeShift Proofs.Scaling Proofs.ShiftBuild Proofs.BuildProofs Proofs.FlowOrder Proofs.AggregateAll Proofs.CompOrder Proofs.PopScale Proofs.StratCompsOrder Proofs.StratSwap Proofs.StratSwapApi Model.InitPop Gen.SolversGen Props.Examples.
+     Model.Rates Model.Run Model.Program Proofs.NumQc Proofs.NumLemmas Proofs.InvarianceProofs Proofs.TimeShift Proofs.Scaling Proofs.ShiftBuild Proofs.BuildProofs Proofs.FlowOrder Proofs.AggregateAll Proofs.CompOrder Proofs.PopScale Proofs.StratCompsOrder Proofs.StratSwap Proofs.StratSwapApi Proofs.RenameFlows Model.InitPop Gen.SolversGen Props.Examples.
 
 Theorem C15_flow_permutation :
   forall (O : NumOps) (T : NumTheory O) (rate : flow -> F O) (fl fl' : list flow) (c : comp),
@@ -317,3 +317,15 @@ Example C15_stratification_order_api_nonvacuous :
   | None => False
   end.
 Proof. vm_compute. split; [reflexivity | intro H; discriminate H]. Qed.
+
+(* ... and with the copies a stratification makes of a flow: the copies of the renamed flow under the stratification that
+   lists the renamed compartments are the renamed copies, in the same order, with the same parameters and adjustments
+   (and it is refused exactly when the original is) - every flow kind, with or without adjustment requests *)
+Theorem C15_renaming_flow_copies :
+  forall f s s' g,
+    (forall a b : string, f a = f b -> a = b) ->
+    s_name s' = s_name s -> s_kind s' = s_kind s -> s_strata s' = s_strata s -> s_comps s' = map f (s_comps s) -> s_fadj s' = s_fadj s ->
+    stratify_flow s' (rename_flow f g)
+    = match stratify_flow s g with Ok fl => Ok (map (rename_flow f) fl) | Err e => Err e end.
+Proof. exact renaming_commutes_with_flow_copies. Qed.
+Print Assumptions C15_renaming_flow_copies.
